@@ -87,6 +87,7 @@ def gen_dt(rnd):
 def check_en(ctx, c):
     import dateparser
 
+    ctx.remember(check_en, c)
     d, f, pd, pm = parse_iso(c["d"]), c["f"], c["pd"], c["pm"]
     s = render(d, f)
     y0 = date.today().year
@@ -232,6 +233,7 @@ def run_shard(ctx, desc):
                     n += 1
             ctx.count("localised_names", n)
             ctx.count("localised_languages", len(langs))
+        ctx.reask()
     finally:
         ac.stop()
     for k, v in ac.counts.items():
